@@ -1,7 +1,7 @@
 (* Main.v — single entry point of the extracted model: one request tree in, one
    response tree out.  The OCaml driver only parses and prints trees. *)
 From Coq Require Import String List.
-From Prov Require Import Str Sexp Tables Nsm Scope Values Record World Jtree Json JsonSpec Provn ProvnSpec XmlSpec IO Dot Xml XmlLabel XmlRec XmlRead Rdf Rdfq RdfVal Interp.
+From Prov Require Import Str Sexp Tables Nsm Scope Values Record World Jtree Json JsonSpec Provn ProvnSpec XmlSpec IO Dot Xml XmlLabel XmlRec XmlRead XmlScope Rdf Rdfq RdfVal Dotg Interp.
 Import ListNotations.
 Open Scope string_scope.
 
@@ -39,6 +39,17 @@ Definition sx_rrec (r : rrec) : sexp :=
   L [A "rel"; A (rk r); match rid r with Some u => A u | None => A "none" end;
      L (map (fun v => match v with Some o => sx_obj o | None => A "none" end) (rf r));
      L (map (fun a => L [A (fst a); sx_obj (snd a)]) (rx r))].
+
+(* the world a program ends in (outputs dropped) *)
+Fixpoint final_world (w : world) (ops : list sexp) : option world :=
+  match ops with
+  | [] => Some w
+  | o :: r => match px_op o with
+              | None => None
+              | Some p => final_world (fst (step w p)) r
+              end
+  end.
+Definition sx_scope (l : list (string * string)) : sexp := L (map (fun pu => L [A (fst pu); A (snd pu)]) l).
 
 Definition run (req : sexp) : sexp :=
   match req with
@@ -150,6 +161,75 @@ Definition run (req : sexp) : sexp :=
           | None, _ => A "bad-value"
           end
       | _, _, _ => A "bad-request"
+      end
+  | L (A "dotstruct" :: A nary :: A ea :: A ra :: L ft :: ops) =>
+      match px_list px_fentry ft with
+      | Some t =>
+          match final_world (mkW [] t) ops with
+          | Some w =>
+              let o := mkDO (String.eqb nary "true") (String.eqb ea "true") (String.eqb ra "true") in
+              L (map (fun d => match dot_structure t o d with
+                               | Some (m, cs) => L [L (map sx_stmt m); L (map (fun c => L (map sx_stmt c)) cs)]
+                               | None => A "ood"
+                               end) (wdocs w))
+          | None => A "parse-error"
+          end
+      | None => A "bad-float-table"
+      end
+  | L (A "xmldocs" :: A fl :: L ft :: ops) =>
+      match px_list px_fentry ft with
+      | Some t =>
+          match final_world (mkW [] t) ops with
+          | Some w => L (map (fun d => match xml_document (String.eqb fl "true") d with Some x => sx_xnode x | None => A "none" end) (wdocs w))
+          | None => A "parse-error"
+          end
+      | None => A "bad-float-table"
+      end
+  | L (A "xmlscopes" :: L ft :: ops) =>
+      match px_list px_fentry ft with
+      | Some t =>
+          match final_world (mkW [] t) ops with
+          | Some w => L (map (fun d => L (map sx_scope (doc_nsmaps d))) (wdocs w))
+          | None => A "parse-error"
+          end
+      | None => A "bad-float-table"
+      end
+  | L [A "rdfelems"; L nss; L recs] =>
+      let px_decl (x : sexp) : option (string * string) :=
+        match x with L [A p; A u] => Some (p, u) | _ => None end in
+      let px_pair (x : sexp) : option (qname * value) :=
+        match x with
+        | L [a; v] => match px_qn a, px_valarg v with
+                      | Some aq, Some va => option_map (fun vv => (aq, vv)) (valarg_value va)
+                      | _, _ => None
+                      end
+        | _ => None
+        end in
+      (* a record as (kind id ((attribute value) ...)): its attribute dictionary is rebuilt by attr_add in order *)
+      let px_rec (x : sexp) : option prec :=
+        match x with
+        | L [A kind; ident; L pairs] =>
+            match px_qn ident, px_list px_pair pairs with
+            | Some q, Some l => Some (mkRec kind (Some q) (fold_left (fun d kv => attr_add (fst kv) (snd kv) d) l []))
+            | _, _ => None
+            end
+        | _ => None
+        end in
+      match px_list px_decl nss, px_list px_rec recs with
+      | Some decls, Some rs =>
+          match declare_all nsm_init decls, rdf_element_blocks rs with
+          | Some m, Some ts =>
+              let ts' := dedup_triples ts in
+              L [L (map (fun t => L [A (fst (fst t)); A (snd (fst t)); sx_rterm (snd t)]) ts');
+                 match rdf_read_elements None [] (mkB None m [] []) ts' with
+                 | (b', OK _) => L (A "ok" :: map sx_rec (brecs b'))
+                 | (_, Raise e) => L [A "raise"; A (exc_name e)]
+                 | (_, OutOfDomain) => A "ood"
+                 end]
+          | Some _, None => A "ood"
+          | None, _ => A "bad-value"
+          end
+      | _, _ => A "bad-request"
       end
   | L [A "dotquote"; A s] => L [A (dot_quote s); A (html_escape s)]
   | L [A "destpath"; A name] =>
